@@ -1,6 +1,7 @@
 package main
 
 import (
+	"os"
 	"math"
 	"fmt"
 	"go/constant"
@@ -206,8 +207,13 @@ func (in *Interp) call(fnv Value, args []Value) Value {
 	return nil
 }
 
+var traceCalls = os.Getenv("GOSX_TRACE") != ""
+
 func (in *Interp) callFunction(fn *ssa.Function, args []Value, env []Value) Value {
 	name := fn.String()
+	if traceCalls {
+		fmt.Fprintln(os.Stderr, "CALL", name)
+	}
 	if rep, ok := in.ctx.ex.Summaries[name]; ok && rep != fn {
 		// function summary: the callee is replaced by a harness function stating its contract
 		return in.callFunction(rep, args, nil)
